@@ -122,7 +122,8 @@ class BankMachine(Module):
             req.connect(cmd_buffer_lookahead.sink, keep={"valid", "ready", "we", "addr"}),
             cmd_buffer_lookahead.source.connect(cmd_buffer.sink),
             cmd_buffer.source.ready.eq(req.wdata_ready | req.rdata_valid),
-            req.lock.eq(cmd_buffer_lookahead.source.valid | cmd_buffer.source.valid),
+            # Note: a buffered FIFO only asserts source.valid 2 cycles after a write, level covers the gap.
+            req.lock.eq(cmd_buffer_lookahead.source.valid | cmd_buffer.source.valid | (cmd_buffer_lookahead.level != 0)),
         ]
 
         slicer = _AddressSlicer(settings.geom.colbits, address_align)
